@@ -33,9 +33,12 @@ pub enum Kind {
     /// of the sequence while other threads go on (what follows a rejected ordered call is not specified,
     /// so the oracle is: no ordered position is ever handed out twice)
     OrderedRejecting,
+    /// one unordered pattern with ONE response and an exact count (`each_call(..).answers(..).n_times(slots)`):
+    /// every response is the same, so only the COUNT can go wrong (C03: verification fails iff the count is unmet)
+    ExactCount,
 }
 
-pub const KINDS: [Kind; 7] = [Kind::UnorderedChain, Kind::Ordered, Kind::Mixed, Kind::SingleUse, Kind::SingleUseThen, Kind::AllErrors, Kind::OrderedRejecting];
+pub const KINDS: [Kind; 8] = [Kind::UnorderedChain, Kind::Ordered, Kind::Mixed, Kind::SingleUse, Kind::SingleUseThen, Kind::AllErrors, Kind::OrderedRejecting, Kind::ExactCount];
 
 #[derive(Clone, Debug, PartialEq, Eq, Hash, Serialize, Deserialize)]
 pub struct RaceCase {
@@ -121,6 +124,11 @@ pub fn clauses(case: &RaceCase) -> Vec<ClauseSpec> {
             }
             v
         }
+        Kind::ExactCount => vec![ClauseSpec::Single {
+            method: 2,
+            entry: Entry::Each,
+            pat: pat(7, vec![seg(Resp::Answers, Quant::NTimes(case.slots))]),
+        }],
         Kind::AllErrors => vec![ClauseSpec::Single {
             method: 2,
             entry: Entry::Each,
@@ -368,6 +376,7 @@ pub fn check(case: &RaceCase) -> Result<CaseInfo, String> {
             Kind::SingleUseThen => "single-use-then",
             Kind::AllErrors => "all-errors",
             Kind::OrderedRejecting => "ordered-with-rejected-calls",
+            Kind::ExactCount => "exact-count",
         })
         .class_if(case.shared, "shared-&Unimock")
         .class_if(case.creator, "creator-thread-takes-part"))
@@ -439,11 +448,13 @@ fn slot_variants(kind: Kind, threads: u8, calls: u8) -> Vec<u8> {
         Kind::Ordered => vec![n, n.saturating_sub(1).max(1)],
         Kind::OrderedRejecting => vec![n],
         Kind::Mixed => vec![n.div_ceil(2)],
+        // the count is exactly met (verification silent), or one call short (one line)
+        Kind::ExactCount => vec![n, n + 1],
         _ => vec![0],
     }
 }
 
-pub const RULE: &str = "schedules of the real code at the granularity of every atomic operation and lock acquisition the runtime performs (yield hook): T threads x K calls through clones on (a) one unordered pattern with a 3-segment response chain, (b) an ordered sequence whose slots accept every call (as many slots as calls, and one fewer), (c) both mixed, (d)/(e) single-use values, (f) an ordered sequence whose slots reject part of the calls (oracle there: no ordered position is handed out twice, and verification fails after a rejection). exhaustive = depth-first enumeration of ALL schedules for (T,K) in {(2,1),(2,2),(3,1),(2,3)} (+ (3,2),(4,1) in the thorough tier); sampled = proptest-generated choice sequences for (3,2)..(4,3); stress = 16 unsynchronised real threads. lent-answers = T threads x K calls answered through make_ref on ONE shared &Unimock (value-chain cells and the delegator cell are yield points too), optionally the first call of each thread through a provided method (race for the delegation helper): all schedules of (2,1),(2,2) (+ (3,1),(2,3) thorough), sampled (3,2)..(4,3); oracle there: every call reads its own value at the call and at thread end, addresses pairwise distinct, silent teardown. Oracle: multiset of returned tags / panics per method equals that of positions 1..N of the sequential model, and the verification verdict after join equals the sequential verdict. Non-trivial = >= 2 context switches at yield points; distinct = distinct schedule";
+pub const RULE: &str = "schedules of the real code at the granularity of every atomic operation and lock acquisition the runtime performs (yield hook): T threads x K calls through clones on (a) one unordered pattern with a 3-segment response chain, (b) an ordered sequence whose slots accept every call (as many slots as calls, and one fewer), (c) both mixed, (d)/(e) single-use values, (f) an ordered sequence whose slots reject part of the calls (oracle there: no ordered position is handed out twice, and verification fails after a rejection), (g) one pattern with a single response and an exact count n_times(N) / n_times(N+1) for N calls (only the count can go wrong: verification after join must be silent / name exactly that pattern). exhaustive = depth-first enumeration of ALL schedules for (T,K) in {(2,1),(2,2),(3,1),(2,3)} (+ (3,2),(4,1) in the thorough tier); sampled = proptest-generated choice sequences for (3,2)..(4,3); stress = 16 unsynchronised real threads. lent-answers = T threads x K calls answered through make_ref on ONE shared &Unimock (value-chain cells and the delegator cell are yield points too), optionally the first call of each thread through a provided method (race for the delegation helper): all schedules of (2,1),(2,2) (+ (3,1),(2,3) thorough), sampled (3,2)..(4,3); oracle there: every call reads its own value at the call and at thread end, addresses pairwise distinct, silent teardown. Oracle: multiset of returned tags / panics per method equals that of positions 1..N of the sequential model, and the verification verdict after join equals the sequential verdict. Non-trivial = >= 2 context switches at yield points; distinct = distinct schedule";
 
 pub fn stress(ctx: &Ctx) -> SubReport {
     // real threads, hooks idle: 16 threads hammer an unordered chain and an ordered sequence
@@ -809,7 +820,7 @@ pub fn run(ctx: &Ctx) -> Verdict {
         "sequentially consistent interleavings only (no weak-memory effects)".into(),
     ];
     v.subs.push(super::replay_corpus(ctx));
-    v.subs.extend(run_kinds(ctx, &[(2, 1), (2, 2), (3, 1), (2, 3)], &[Kind::UnorderedChain, Kind::Ordered, Kind::Mixed, Kind::OrderedRejecting]));
+    v.subs.extend(run_kinds(ctx, &[(2, 1), (2, 2), (3, 1), (2, 3)], &[Kind::UnorderedChain, Kind::Ordered, Kind::Mixed, Kind::OrderedRejecting, Kind::ExactCount]));
     v.subs.push(stress(ctx));
     v.subs.push(lend_stress(ctx));
     v.subs.extend(lent_reports(ctx));
